@@ -4,6 +4,7 @@ import Enc.Lemmas.ThriftZig
 import Enc.Lemmas.ThriftPrim
 import Enc.Lemmas.ThriftDecode
 import Enc.Lemmas.ThriftRoundTrip
+import Enc.Lemmas.ThriftUnionWitness
 /-!
 # C04 — thrift: Unmarshal(Marshal(v)) == v for binary and compact protocols
 Property theorems only.
@@ -86,5 +87,165 @@ theorem protocols_agree (p₁ p₂ : Proto) (s₁ s₂ : Bool) (ty : Ty) (v : Va
     (hd : nest ty ≤ Gen.c_thrift_maxDepth) :
     unmarshal p₁ s₁ ty (marshal p₁ ty v) = unmarshal p₂ s₂ ty (marshal p₂ ty v) := by
   rw [Lemmas.ThriftRoundTrip.unmarshal_marshal p₁ s₁ ty v h hd, Lemmas.ThriftRoundTrip.unmarshal_marshal p₂ s₂ ty v h hd]
+
+/-! ## unions (model: Enc/Model/ThriftUnion.lean; proofs: Enc/Lemmas/ThriftUnion*.lean; witnesses: ThriftUnionWitness.lean)
+
+A Go union is a struct whose members are ordinary fields with ids plus one interface-typed field tagged `thrift:",union"`
+that holds the address of the member that is set (`.ptr (.int k)` = member at declaration position `k`). `encodeU`, `decodeU`,
+`marshalU`, `unmarshalU` are the model WITH the union handling of encode.go / decode.go; on types without a union field they
+are the functions of the theorems above (`marshalU_eq_marshal`, `unmarshalU_eq_unmarshal`), so those theorems keep their
+full strength and the driver runs the `…U` functions for every case.
+
+Vocabulary (`Lemmas.ThriftUnion`): `fieldAt fs vs k = some (tag, t, x)` — tag, type, value of field `k`;
+`emittedU zm k tag t x = some (id, en)` — the struct encoder writes field `k` (`zm` = what `zeroMember` answers);
+`othersQuiet zm k fs vs 0` — it writes no other field (every other member is nil or holds its zero value).
+Tags are strings: the concrete witnesses are `#guard`s in ThriftUnionWitness.lean (the project's convention). -/
+
+open Lemmas.ThriftSkip Lemmas.ThriftRoundTrip Lemmas.ThriftUnion in
+/-- conservativity: without union fields the model with unions IS the model of the theorems above -/
+theorem marshalU_eq_marshal (p : Proto) (ty : Ty) (v : Val) (h : noUnion ty = true) :
+    marshalU p ty v = .ok (marshal p ty v) := Lemmas.ThriftUnion.marshalU_eq_marshal p ty v h
+theorem unmarshalU_eq_unmarshal (p : Proto) (strict : Bool) (ty : Ty) (b : Bytes) (h : noUnion ty = true) :
+    unmarshalU p strict ty b = unmarshal p strict ty b := Lemmas.ThriftUnion.unmarshalU_eq_unmarshal p strict ty b h
+
+open Lemmas.ThriftSkip Lemmas.ThriftUnion in
+/-- **union_bytes**: a union value with exactly member `k` emitted is written as the struct with exactly that field (header,
+value, stop) — binary strict, binary non-strict and compact -/
+theorem union_bytes (p : Proto) (fs : Fields) (vs : Vals) (k : Nat) (tag : String) (t : Ty) (x : Val) (id : Int)
+    (en : Bool) (body : Bytes)
+    (hq : othersQuiet (zeroMember fs vs) k fs vs 0 = true)
+    (hk : fieldAt fs vs k = some (tag, t, x))
+    (he : emittedU (zeroMember fs vs) k tag t x = some (id, en))
+    (hb : fieldBodyU p en t x = .ok body) :
+    encodeU p (.struct fs) (.struct vs) =
+      .ok (emitFields p [{ id := id, t := typeOf t, isTrue := fieldIsTrue x, body := body }] 0 ++ wStopField p) :=
+  Lemmas.ThriftUnion.union_bytes p fs vs k tag t x id en body hq hk he hb
+
+open Lemmas.ThriftSkip Lemmas.ThriftUnion in
+/-- **the member that is SET TO ITS ZERO VALUE is written** (fix fb0bd25): when the union field holds the address of member
+`k`, every member holds its zero value and `k` is the only member of its Go type (`hscan` is the loop of `zeroMember`),
+`zeroMember` answers `k`, and then field `k` is emitted whatever its value (anything but a nil pointer). With two members of
+one Go type `zeroMember` answers −1 and nothing is written: `Witness.uB0` (finding; `Unmarshal(Marshal(u)) ≠ u` there). -/
+theorem union_zero_member_written (fs : Fields) (vs : Vals) (u k : Nat) (t : Ty) (tag : String) (x : Val) (id : Int)
+    (rq en : Bool) (hu : unionPos fs 0 = some u) (hF : Vals.get vs u = .ptr (.int (k : Nat))) (ht : tyAt fs k = some t)
+    (hscan : zmScan t fs vs 0 = some [k]) (hp : parseTag tag = some (id, rq, en)) (hn : isNilPtr t x = false) :
+    emittedU (zeroMember fs vs) k tag t x = some (id, en) := by
+  rw [Lemmas.ThriftUnion.zeroMember_designated fs vs u k t hu hF ht hscan]
+  exact Lemmas.ThriftUnion.emittedU_zeroMember k tag t x id rq en hp hn
+
+open Lemmas.ThriftUnion in
+/-- no member emitted (nothing set): the empty struct, no error; several emitted: `Marshal` returns the union error -/
+theorem union_no_member (p : Proto) (fs : Fields) (vs : Vals)
+    (hq : othersQuiet (zeroMember fs vs) fs.length fs vs 0 = true) :
+    encodeU p (.struct fs) (.struct vs) = .ok (wStopField p) := Lemmas.ThriftUnion.union_no_member p fs vs hq
+theorem union_several_members (p : Proto) (fs : Fields) (vs : Vals) (u : Nat) (recs : List FieldRec)
+    (hu : unionPos fs 0 = some u) (hr : fieldRecsU p (zeroMember fs vs) fs vs 0 = .ok recs) (hn : 1 < recs.length) :
+    encodeU p (.struct fs) (.struct vs) = .err "unionMultiple" :=
+  Lemmas.ThriftUnion.union_several_members p fs vs u recs hu hr hn
+
+open Lemmas.ThriftPrim Lemmas.ThriftSkip Lemmas.ThriftRoundTrip Lemmas.ThriftUnion in
+/-- **union_round_trip** (`Unmarshal(Marshal(u))`, all three protocol settings, strict or not): a union value with exactly
+one member emitted — holding its zero value or not, the empty string and zero scalars included —, the member being of the
+proved universe `RTS` (scalars, strings, binaries, lists, sets, maps, nested structs, pointers, named types), comes back as the
+zero value of the struct with that member (normal form) and the union field holding the member's address. By
+`union_value_eq` this IS the value that was marshalled when it is a proper union value and the member is `Exact`. -/
+theorem union_round_trip (p : Proto) (strict : Bool) (fs : Fields) (vs : Vals) (u k : Nat) (tag : String)
+    (t : Ty) (x : Val) (id : Int) (rq en : Bool)
+    (hu : unionPos fs 0 = some u)
+    (hq : othersQuiet (zeroMember fs vs) k fs vs 0 = true)
+    (hk : fieldAt fs vs k = some (tag, t, x))
+    (he : emittedU (zeroMember fs vs) k tag t x = some (id, en))
+    (hid : 1 ≤ id ∧ id ≤ 32767) (hreal : isReal (typeOf t) = true)
+    (hfind : findById (fieldDescs fs) id = some { pos := k, id := id, required := rq, enum := en, ty := t })
+    (hreq : ∀ fd ∈ fieldDescs fs, fd.required = true → fd.id = id)
+    (hty : tyAt fs k = some t)
+    (hnu : noUnion t = true) (hx : RTS t x = true) (hen : enumTyOK en t = true)
+    (hd : 1 + nest t ≤ Gen.c_thrift_maxDepth) :
+    ∃ bytes, marshalU p (.struct fs) (.struct vs) = .ok bytes ∧
+      unmarshalU p strict (.struct fs) bytes =
+        .ok (.struct (Vals.set (Vals.set (zeroFields fs) k (norm t x)) u (.ptr (.int k)))) :=
+  Lemmas.ThriftUnion.union_round_trip p strict fs vs u k tag t x id rq en hu hq hk he hid hreal hfind hreq hty hnu hx hen hd
+
+open Lemmas.ThriftUnion in
+theorem union_value_eq (fs : Fields) (vs : Vals) (u k : Nat) (w : Val) (hlen : vs.length = (zeroFields fs).length)
+    (hku : k ≠ u) (hk : k < vs.length) (hul : u < vs.length)
+    (hothers : ∀ n, n ≠ k → n ≠ u → Vals.get vs n = Vals.get (zeroFields fs) n)
+    (hkv : Vals.get vs k = w) (hF : Vals.get vs u = .ptr (.int k)) :
+    Vals.set (Vals.set (zeroFields fs) k w) u (.ptr (.int k)) = vs :=
+  Lemmas.ThriftUnion.union_value_eq fs vs u k w hlen hku hk hul hothers hkv hF
+
+open Lemmas.ThriftPrim Lemmas.ThriftSkip Lemmas.ThriftRoundTrip Lemmas.ThriftUnion in
+/-- **union_round_trip, closure form** (decoder level, any target value `cur`, any depth below the limit): whatever the
+member's type — a member that is itself a union, or a pointer to one, included — its own value step `ValStepU` (for `RTS`
+members: `Lemmas.ThriftUnion.valStepU_of_RTS`; for a union member: this theorem) lifts to the union. Nested unions to any
+depth follow by iterating; `Witness.W` is a union inside a union. -/
+theorem union_round_trip_gen (p : Proto) (strict : Bool) (d : Nat) (fs : Fields) (vs : Vals) (u k : Nat) (tag : String)
+    (t : Ty) (x : Val) (id : Int) (rq en : Bool) (body : Bytes) (w : Val) (B : Nat)
+    (hu : unionPos fs 0 = some u)
+    (hq : othersQuiet (zeroMember fs vs) k fs vs 0 = true)
+    (hk : fieldAt fs vs k = some (tag, t, x))
+    (he : emittedU (zeroMember fs vs) k tag t x = some (id, en))
+    (hb : fieldBodyU p en t x = .ok body)
+    (hid : 1 ≤ id ∧ id ≤ 32767) (hreal : isReal (typeOf t) = true)
+    (hfind : findById (fieldDescs fs) id = some { pos := k, id := id, required := rq, enum := en, ty := t })
+    (hreq : ∀ fd ∈ fieldDescs fs, fd.required = true → fd.id = id)
+    (hbool : typeOf t = .bool → wrapPtr t (.bool (fieldIsTrue x)) = w)
+    (hstep : ValStepU p strict (d + 1) { pos := k, id := id, required := rq, enum := en, ty := t } body B
+      (Vals.get (zeroFields fs) k) w)
+    (hd : d < Gen.c_thrift_maxDepth) :
+    ∃ bytes, encodeU p (.struct fs) (.struct vs) = .ok bytes ∧
+      ∀ (fuel : Nat) (cur : Vals) (rest : Bytes), bytes.length + 2 + B ≤ fuel →
+        decodeU p strict d fuel (.struct fs) (bytes ++ rest) (.struct cur) =
+          .ok (.struct (Vals.set (Vals.set (zeroFields fs) k w) u (.ptr (.int k))), rest) :=
+  Lemmas.ThriftUnion.union_round_trip_gen p strict d fs vs u k tag t x id rq en body w B hu hq hk he hb hid hreal hfind hreq
+    hbool hstep hd
+
+open Lemmas.ThriftPrim Lemmas.ThriftSkip Lemmas.ThriftRoundTrip Lemmas.ThriftUnion in
+/-- **union_last_member_wins**: the wire carries several members (records the target declares, ascending ids — what an
+encoder of the same fields without the union option writes; `W f` = the value record `f` decodes to from the zero value).
+Every member that arrives resets the struct (`v.Set(dec.zero)`), so the result is the ZERO value of the struct with the LAST
+member alone, the union field holding its address; earlier members, untagged fields and the target's previous content `cur`
+are gone. One member = the ordinary case. (No member at all: the target is left untouched — `Witness`.) -/
+theorem union_last_member_wins (p : Proto) (strict : Bool) (d : Nat) (fs : Fields) (u : Nat) (hu : unionPos fs 0 = some u)
+    (B : Nat) (W : FieldRec → Val) (l : List FieldRec) (hne : l ≠ [])
+    (hasc : l.Pairwise (fun a b => a.id < b.id)) (hpos : ∀ f ∈ l, 0 < f.id)
+    (hrecs : ∀ f ∈ l, DecRecU p strict (d + 1) (fieldDescs fs) (zeroFields fs) B f (W f))
+    (hreq : ∀ fd ∈ fieldDescs fs, fd.required = true → fd.id ∈ l.map (·.id))
+    (hd : d < Gen.c_thrift_maxDepth) (fuel : Nat) (hf : (emitFields p l 0).length + 2 + B ≤ fuel) (cur : Vals)
+    (rest : Bytes) :
+    decodeU p strict d fuel (.struct fs) (emitFields p l 0 ++ (wStopField p ++ rest)) (.struct cur) =
+      .ok (.struct (Vals.set (Vals.set (zeroFields fs) (posOf (fieldDescs fs) (l.getLast hne).id) (W (l.getLast hne))) u
+              (.ptr (.int (posOf (fieldDescs fs) (l.getLast hne).id)))), rest) :=
+  Lemmas.ThriftUnion.union_last_member_wins p strict d fs u hu B W l hne hasc hpos hrecs hreq hd fuel hf cur rest
+
+open Lemmas.ThriftPrim Lemmas.ThriftSkip Lemmas.ThriftRoundTrip Lemmas.ThriftUnion in
+/-- **union_protocols_agree**: the result of `Unmarshal(Marshal(u))` does not depend on the protocol nor on strictness -/
+theorem union_protocols_agree (p₁ p₂ : Proto) (s₁ s₂ : Bool) (fs : Fields) (vs : Vals) (u k : Nat) (tag : String)
+    (t : Ty) (x : Val) (id : Int) (rq en : Bool)
+    (hu : unionPos fs 0 = some u)
+    (hq : othersQuiet (zeroMember fs vs) k fs vs 0 = true)
+    (hk : fieldAt fs vs k = some (tag, t, x))
+    (he : emittedU (zeroMember fs vs) k tag t x = some (id, en))
+    (hid : 1 ≤ id ∧ id ≤ 32767) (hreal : isReal (typeOf t) = true)
+    (hfind : findById (fieldDescs fs) id = some { pos := k, id := id, required := rq, enum := en, ty := t })
+    (hreq : ∀ fd ∈ fieldDescs fs, fd.required = true → fd.id = id)
+    (hty : tyAt fs k = some t)
+    (hnu : noUnion t = true) (hx : RTS t x = true) (hen : enumTyOK en t = true)
+    (hd : 1 + nest t ≤ Gen.c_thrift_maxDepth) :
+    (marshalU p₁ (.struct fs) (.struct vs)).bind (unmarshalU p₁ s₁ (.struct fs)) =
+      (marshalU p₂ (.struct fs) (.struct vs)).bind (unmarshalU p₂ s₂ (.struct fs)) :=
+  Lemmas.ThriftUnion.union_protocols_agree p₁ p₂ s₁ s₂ fs vs u k tag t x id rq en hu hq hk he hid hreal hfind hreq hty hnu hx
+    hen hd
+
+open Lemmas.ThriftSkip Lemmas.ThriftRoundTrip Lemmas.ThriftUnion in
+/-- hypothesis `hfind` of the round-trip theorems from the tags: ids pairwise distinct (`idsOK`; Go panics otherwise) -/
+theorem union_member_table (fs : Fields) (vs : Vals) (k : Nat) (tag : String) (t : Ty) (x : Val) (id : Int) (rq en : Bool)
+    (hids : idsOK fs = true) (hk : fieldAt fs vs k = some (tag, t, x)) (hp : parseTag tag = some (id, rq, en)) :
+    findById (fieldDescs fs) id = some { pos := k, id := id, required := rq, enum := en, ty := t } :=
+  Lemmas.ThriftUnion.findById_member fs vs k tag t x id rq en hids hk hp
+
+/-- non-vacuity (tags need evaluation: the full hypothesis sets are `#guard`ed in Lemmas/ThriftUnionWitness.lean): the witness
+union `V = struct { A bool (1); C string (3); F any (union); B int64 (9) }` has its union field at position 2 -/
+example : Lemmas.ThriftUnion.Witness.VF.length = 4 := by decide
 
 end Enc.Props.C04
